@@ -1083,6 +1083,33 @@ impl<'a> Lifter<'a> {
         walk(e.to_token_stream(), &mut out);
         out
     }
+    /// is this statement-position `if` / `match` free of effects other than panicking (every branch is empty, `()` or a
+    /// panic-class macro)?
+    fn only_panics(e: &syn::Expr) -> bool {
+        fn blk(b: &syn::Block) -> bool {
+            b.stmts.iter().all(|s| match s {
+                syn::Stmt::Expr(e, _) => ex(e),
+                syn::Stmt::Macro(m) => mac(&m.mac),
+                _ => false,
+            })
+        }
+        fn mac(m: &syn::Macro) -> bool {
+            let n = m.path.segments.last().map(|s| s.ident.to_string()).unwrap_or_default();
+            ["panic", "unreachable", "unimplemented", "todo", "assert", "debug_assert", "assert_eq", "debug_assert_eq"].contains(&n.as_str())
+        }
+        fn ex(e: &syn::Expr) -> bool {
+            match e {
+                syn::Expr::Macro(m) => mac(&m.mac),
+                syn::Expr::Tuple(t) => t.elems.is_empty(),
+                syn::Expr::Block(b) => blk(&b.block),
+                syn::Expr::Paren(p) => ex(&p.expr),
+                syn::Expr::If(i) => blk(&i.then_branch) && i.else_branch.as_ref().map(|(_, e)| ex(e)).unwrap_or(true),
+                syn::Expr::Match(m) => m.arms.iter().all(|a| ex(&a.body)),
+                _ => false,
+            }
+        }
+        matches!(e, syn::Expr::If(_) | syn::Expr::Match(_)) && ex(e)
+    }
     /// L24: recognise `for i in a..b { let ..; ..; acc += e; }` with `acc` a real local bound outside the loop that the
     /// body does not otherwise mention; returns (acc, lets, e, a, b)
     fn accumulation_loop(&self, f: &syn::ExprForLoop) -> Option<(String, Vec<syn::Stmt>, syn::Expr, syn::Expr, syn::Expr)> {
@@ -1751,6 +1778,12 @@ impl<'a> Lifter<'a> {
                 let k = |s: &mut Self| s.rest(rest, cont);
                 self.note("L14", e.span(), "early return: rest of the body moved into the non-returning arms");
                 self.match_expr(m, Some(&k))
+            }
+            Expr::If(_) | Expr::Match(_) if Self::only_panics(e) => {
+                // a statement whose only effect is a panic on some path: the panic path is not part of the lifted
+                // function (like unwrap / expect, L16)
+                self.note("L16", e.span(), "statement that only panics on some path: dropped");
+                self.rest(rest, cont)
             }
             Expr::If(i) => {
                 // conditional assignment(s) without return: every variable assigned in a branch becomes
@@ -2461,6 +2494,7 @@ impl<'a> Lifter<'a> {
             }
             ("len", "OArr") => return Ok(v(format!("{}.len", recv.text), "int")),
             ("is_empty", "OArr" | "RArr") => return Ok(v(format!("({}.len == 0int)", recv.text), "bool")),
+            ("is_empty", "Seq<int>") => return Ok(v(format!("({}.len() == 0)", recv.text), "bool")),
             ("get", t) if t.starts_with("Map<") && args.len() == 1 => {
                 let parts = split_top(&t[4..t.len() - 1]);
                 let vt = parts.get(1).map(|x| x.trim().to_string()).unwrap_or_default();
